@@ -52,6 +52,17 @@ Theorem c20_duration : forall (obs tpb : Q), (0 < tpb)%Q ->
 Proof. exact duration_bracket. Qed.
 Print Assumptions c20_duration.
 
+(* a recording never has more blocks than requested nor than its input RAW data holds *)
+Theorem c20_effective_blocks : forall requested input n, effective_blocks requested input = Some n ->
+  (forall m, input = Some m -> n <= m)%Z /\ (forall k, requested = Some k -> n <= k)%Z /\
+  (forall k, requested = Some k -> (forall m, input = Some m -> k <= m)%Z -> n = k) /\
+  (requested = None -> input = Some n).
+Proof. exact effective_blocks_spec. Qed.
+Print Assumptions c20_effective_blocks.
+Theorem c20_effective_blocks_error : forall requested input, effective_blocks requested input = None <-> (requested = None /\ input = None).
+Proof. exact effective_blocks_none. Qed.
+Print Assumptions c20_effective_blocks_error.
+
 Example c20_example :
   let c := {| nants := 1; npols := 2; nbits := 8; nchans := 64; taps := 8; nb := 1024; block_size := 20480; blocks_per_file := 2 |}%Z in
   admitted c = true /\ spb c = 80%Z /\ plan 10 4 = [3;3;3;1]%Z /\
